@@ -75,11 +75,14 @@ def _chunk(args):
         for v in others:
             agg["probes"]["other_property_observations:" + v["property"]] += 1
         if mine:
+            agg["cut_short"] = True
             agg["viol"].append(
                 {"run": i, "seed": s, "violations": mine, "trace": res["trace"], "model_dict": res.get("model_dict")}
             )
         if want_samples and len(agg["samples"]) < want_samples and res.get("nontrivial"):
             agg["samples"].append(res.get("sample"))
+        if mine:
+            break  # the rest of a violating chunk is skipped (deterministic: its first violation is what is reported)
     return agg
 
 
@@ -108,9 +111,12 @@ def run_batch(fam: str, focus: str, params: dict, base_seed: int, runs: int, job
         done_idx = 0
         futs = {}
         # keep at most 2*jobs in flight so that a deadline stops submission
+        stop = [False]  # a violating chunk stops the submission of further chunks (those in flight complete: the
+        # completed set is always a prefix of the run order, so the first violating run is the same whatever the timing)
+
         def submit_more():
             nonlocal submitted
-            while len(futs) < 2 * jobs:
+            while len(futs) < jobs + 2 and not stop[0]:
                 if deadline and time.time() > deadline:
                     total["stopped_early"] = True
                     return
@@ -129,6 +135,9 @@ def run_batch(fam: str, focus: str, params: dict, base_seed: int, runs: int, job
             for f in done:
                 idx = futs.pop(f)
                 results[idx] = f.result()
+                if results[idx]["viol"]:
+                    stop[0] = True
+                    total["stopped_early"] = True
             submit_more()
         for idx in sorted(results):  # aggregate in run order, never in completion order
             _merge(total, results[idx])
@@ -160,7 +169,7 @@ def _merge(total, agg):
         total["samples"].extend(agg["samples"][: 3 - len(total["samples"])])
 
 
-def minimise(fam: str, focus: str, params: dict, bad: dict, max_evals: int = 250):
+def minimise(fam: str, focus: str, params: dict, bad: dict, max_evals: int = 250, max_seconds: float = 60.0):
     """Shrink the trace of a violating run while the same (property, oracle) class persists; every accepted
     candidate has been re-executed, and the final one is executed once more for confirmation."""
     target = (bad["violations"][0]["property"], bad["violations"][0]["oracle"])
@@ -175,7 +184,7 @@ def minimise(fam: str, focus: str, params: dict, bad: dict, max_evals: int = 250
                 return r["trace"]
         return None
 
-    best, evals = shrink(bad["trace"], still, max_evals=max_evals)
+    best, evals = shrink(bad["trace"], still, max_evals=max_evals, max_seconds=max_seconds)
     final = execute(fam, focus, params, trace=best)
     vs = [v for v in final["violations"] if (v["property"], v["oracle"]) == target]
     if not vs:  # should not happen; fall back to the original trace
